@@ -714,3 +714,60 @@ func (c *Ctx) rulesC04dup() {
 		c.undecided("C04.dup: no queue scan found behind the duplicate shortcut")
 	}
 }
+
+// rulesC04drop: a mutation entry point never answers Executed on its own.
+func (c *Ctx) rulesC04drop() {
+	c.rule("C04.drop", "an exported Machine method that queues a mutation (direct queueMutation / PrependMut site) returns the constant Executed only after that site (the queue's own duplicate verdict): no shortcut answers Executed from the machine's momentary activity, because a mutation issued while a transition is running must be queued behind it — the running transition may be the one that makes it necessary")
+	_, exec, ok := c.constVal(pm, "Executed")
+	if !ok {
+		return
+	}
+	n := 0
+	for _, f := range c.Funcs {
+		if !isExportedFunc(f) || f.Parent() != nil {
+			continue
+		}
+		recv := f.Signature.Recv()
+		if recv == nil || namedOf(recv.Type()) == nil || namedOf(recv.Type()).Obj().Name() != "Machine" || relPkg(f.Pkg.Pkg.Path()) != pm {
+			continue
+		}
+		var q []ssa.Instruction
+		for _, s := range c.sitesIn(f, pm+":Machine.queueMutation") {
+			q = append(q, s)
+		}
+		for _, s := range c.sitesIn(f, pm+":Machine.PrependMut") {
+			q = append(q, s)
+		}
+		if len(q) == 0 {
+			continue
+		}
+		n++
+		bad := ""
+		pos := f.Pos()
+		for _, r := range returnsOf(f) {
+			for _, v := range retVals(r) {
+				rn := namedOf(v.Type())
+				if rn == nil || rn.Obj().Name() != "Result" {
+					continue
+				}
+				k, isK := constInt(v)
+				if !isK || k != exec {
+					continue
+				}
+				dom := false
+				for _, s := range q {
+					if dominatesInstr(s, r) {
+						dom = true
+					}
+				}
+				if !dom {
+					bad, pos = "returns the constant Executed before anything was queued", r.Pos()
+				}
+			}
+		}
+		c.check(bad == "", "C04.drop", "Machine."+f.Name()+" answers Executed only through the queue", pos, bad)
+	}
+	if n < 6 {
+		c.undecided(fmt.Sprintf("C04.drop: only %d mutation entry points found", n))
+	}
+}
